@@ -416,7 +416,11 @@ class StateWorld(Run):
                 "dir": rng.choice(["fwd", "fwd", "bwd"]), "entropy": new_entropy(rng)}
 
     def _p_copy(self, rng):
-        return {"op": "copy", "src": self._pick(rng), "slot": self._free_slot(rng)}
+        op = {"op": "copy", "src": self._pick(rng), "slot": self._free_slot(rng)}
+        if rng.random() < 0.25:
+            # the same state through the conversions: state -> map -> state with the rank re-imposed
+            op["how"] = "map_roundtrip"
+        return op
 
     def _p_diag(self, rng):
         pure = [s for s in sorted(self.slots) if self.model[s].rank == 0]
@@ -588,6 +592,10 @@ class StateWorld(Run):
                 obs = []     # measuring nothing: no outcome, probability 1, state untouched
             elif "view_operand" in self.cfg["faults"] and rv > 0.85:
                 via = rng.choice(["stride", "index", "mask"])
+            elif rv > 0.77:
+                # the observables written as strings ("-XIZ", "YY") and parsed by paulis(...)
+                via = "strings"
+                op["plus"] = rng.random() < 0.5
         op["via"] = via
         op["obs"] = sut.strs(obs)
         self._fault_coins(rng, op, self._count_undetermined(self.model[name], obs))
@@ -914,7 +922,11 @@ class StateWorld(Run):
             raise Skip()
         src = self.slots[op["src"]]
         try:
-            cp = src.copy()
+            if op.get("how") == "map_roundtrip":
+                cp = src.to_map().to_state(int(src.r))
+                self.stats["config:state_map_state"] += 1
+            else:
+                cp = src.copy()
         except Exception as e:
             self.stats["env_error:copy:%s" % type(e).__name__] += 1
             return "env_error"
@@ -1052,6 +1064,14 @@ class StateWorld(Run):
                 obj = sut.mk_list(obs, n)
                 if not obs:
                     self.probes["empty_observable_list"] += 1
+            elif via == "strings":
+                if not obs or not all(rm.hermitian(p) for p in obs):
+                    raise Skip()
+                ss = [rm.pstr(p) for p in obs]
+                if not op.get("plus"):
+                    ss = [x[1:] if x.startswith("+") else x for x in ss]
+                obj = self.pc.paulis(ss) if len(ss) != 1 or op.get("plus") else self.pc.paulis(*ss)
+                self.stats["config:observables_from_strings"] += 1
             else:
                 # view operand: the same observables reached through strided / fancy selection
                 junk = (tuple([1] * n), 1)
@@ -1067,7 +1087,7 @@ class StateWorld(Run):
                     mk = np.zeros(2 * len(obs), dtype=bool)
                     mk[::2] = True
                     obj = bl[mk]
-        if via != "list":
+        if via not in ("list", "strings"):
             self.stats["view_operand"] += 1
         pre = self.model[name]
         owned = "c06" in self.flags
